@@ -40,7 +40,7 @@ manifest = {
     "engines": [{"name": "vfw", "path": "vfw/", "serves_properties": [c["property_id"] for c in checks],
                  "kind_free_text": "in-process driver over CrossHair 0.0.110's state space and z3 5.1 executing pyasn1's own modules symbolically; model extensions in vfw/plugin.py; concrete replayer vfw/replay.py"}],
     "checks": checks,
-    "notes": "Solver-based checking of the real code. Every check: ./check <id> --tier quick|thorough. Known findings in known_findings.json; fix: commits in /repo are listed there as fixed entries.",
+    "notes": "Solver-based checking of the real code. Every check: ./check <id> --tier quick|thorough. Known findings in known_findings.json; fix: commits in /repo are listed there as fixed entries. Sensitivity: 120 seeded changes under seeded/ (tools_seeded.py, results in seeded/RESULTS.md and DESIGN.md section 11). evidence/ holds the quick-tier evidence, evidence_thorough/ the thorough runs completed end to end.",
     "not_applicable": na,
 }
 json.dump(manifest, open(os.path.join(HERE, "MANIFEST.json"), "w"), indent=1)
